@@ -458,6 +458,11 @@ func (ex *Exec) runGhost(s *State, site, when string, results []Val) {
 			s.Lets[g.Name] = env.eval(g.RHS)
 			continue
 		case "assert":
+			if ex.mentionsUnboundSiteLet(s, g.Clause.Expr) {
+				// about a value this path has not created (guard such clauses
+				// with bound(x) claims where reaching the site matters)
+				continue
+			}
 			label := g.Clause.Label
 			if label == "" {
 				label = "a"
@@ -563,7 +568,7 @@ func (ex *Exec) loopEnv(s *State, header *ssa.BasicBlock) *Env {
 		}
 	}
 	for n, nv := range fr.Names {
-		if _, taken := env.vars[n]; !taken {
+		if _, taken := env.vars[n]; !taken && ex.g.specs[n] == nil {
 			env.vars[n] = SV{V: nv.V, T: nv.T}
 		}
 	}
